@@ -239,6 +239,51 @@ func c13Ads(c *vf.Ctx) {
 						c.Fail(sub, i, "reencode-differs", fmt.Sprintf("codec %#x", codec), wit())
 					}
 				}
+				// what a decode returns belongs to the caller: changed in place, it does not change what the next
+				// decode of the same block returns; and a decode goes by the bytes it is given (the CID argument is
+				// documented as not checked against them)
+				{
+					k := cidFor(codec, enc)
+					first, err1 := schema.BytesToAdvertisement(k, enc)
+					if err1 == nil {
+						for x := range first.Addresses {
+							first.Addresses[x] = "/changed"
+						}
+						for x := range first.Signature {
+							first.Signature[x] ^= 0xff
+						}
+						for x := range first.ContextID {
+							first.ContextID[x] ^= 0xff
+						}
+						for x := range first.Metadata {
+							first.Metadata[x] ^= 0xff
+						}
+						if first.ExtendedProvider != nil {
+							first.ExtendedProvider.Override = !first.ExtendedProvider.Override
+							for x := range first.ExtendedProvider.Providers {
+								first.ExtendedProvider.Providers[x].ID = "changed"
+							}
+						}
+						again, err2 := schema.BytesToAdvertisement(k, enc)
+						if err2 != nil {
+							c.Fail(sub, i, "roundtrip-error:second-decode", fmt.Sprintf("codec %#x: %v", codec, err2), wit())
+						} else if d := adDiff(ad, &again); d != "" {
+							c.Fail(sub, i, "second-decode-of-a-block-differs:"+d, fmt.Sprintf("codec %#x: the result of the first decode was changed in place by its owner", codec), wit())
+						}
+						// another block decoded under the same CID argument
+						other := c13GenAd(r, bits^2)
+						if on, err := other.ToNode(); err == nil {
+							if oenc, err := encodeNode(on, codec); err == nil && !bytes.Equal(oenc, enc) {
+								if od, err := schema.BytesToAdvertisement(k, oenc); err == nil {
+									if d := adDiff(other, &od); d != "" {
+										c.Fail(sub, i, "decode-does-not-go-by-the-bytes-given:"+d, fmt.Sprintf("codec %#x", codec), wit())
+									}
+								}
+							}
+						}
+						c.Inc("blocks_decoded_again_after_the_first_result_was_changed")
+					}
+				}
 				// generic prototype then Unwrap == typed prototype
 				nb := basicnode.Prototype.Any.NewBuilder()
 				if codec == cid.DagJSON {
